@@ -268,3 +268,26 @@ fn _assert_types() {
     fn is_sc<T: Sc>() {}
     is_sc::<GaussInt<i64>>(); is_sc::<EisenInt<BigInt>>(); is_sc::<Poly<'x', Ratio<i64>>>(); is_sc::<Poly<'x', FF<3>>>();
 }
+
+/// Z[H] as a subring of the reference ring Q[x] (integer coefficients only)
+impl Sc for Poly<'H', i64> {
+    fn rk() -> RK { RK::PQ }
+    fn machine() -> bool { true }
+    fn from_rv(v: &RV) -> Option<Self> {
+        let RV::PQ(c) = v else { return None };
+        let mut terms = vec![];
+        for (i, x) in c.iter().enumerate() { if !x.is_integer() { return None } terms.push((Poly::<'H', i64>::mono(i), x.numer().to_i64()?)); }
+        Some(Poly::from_iter(terms))
+    }
+    fn to_rv(&self) -> RV {
+        let mut terms: Vec<(usize, i64)> = self.iter().map(|(x, r)| (x.deg(), *r)).collect();
+        terms.sort();
+        let n = terms.last().map(|t| t.0 + 1).unwrap_or(0);
+        let mut c = vec![BigRational::zero(); n];
+        for (i, v) in terms { c[i] += BigRational::from_integer(BigInt::from(v)); }
+        while c.last().map(|x| x.is_zero()).unwrap_or(false) { c.pop(); }
+        RV::PQ(c)
+    }
+    fn canonical(&self) -> Result<(), String> { for (x, r) in self.iter() { if *r == 0 { return Err(format!("stored zero coefficient at degree {}", x.deg())) } } Ok(()) }
+    fn operand_bits() -> u32 { 63 }
+}
